@@ -528,8 +528,9 @@ def _initialize_components(n_components, input, y=None, init='auto',
 
   if isinstance(init, np.ndarray):
     # we copy the array, so that if we update the metric, we don't want to
-    # update the init
-    init = check_array(init, copy=True)
+    # update the init (as floats: it is returned as is when the optimizer
+    # makes no iteration)
+    init = check_array(init, copy=True, dtype=float)
 
     # Assert that init.shape[1] = X.shape[1]
     if init.shape[1] != n_features:
